@@ -700,7 +700,7 @@ def bounded(tier, seed):
             f = '%s raised %s: %s' % (case.__name__, type(e).__name__, e)
         if f:
             return n, f, {'case': case.__name__}
-    for k in range(1500 if tier == 'thorough' else 60):
+    for k in range(8000 if tier == 'thorough' else 60):
         n += 1
         try:
             f = history(seed * 1000 + k, 60 if tier == 'thorough' else 40)
@@ -719,7 +719,7 @@ def replay(function, clause, model):
 def run_bounded(tier, seed):
     n, f, inp = bounded(tier, seed)
     return {'tool': 'random histories (connect, disconnect, RequestName with queueing, ReleaseName by owners and waiters, AddMatch, unicast of all four types with forged sender, broadcast, calls to the bus) among up to 5 clients through the real Bus / BusProtocol, wire bytes parsed back; ordering and pre-Hello cases',
-            'bound': '%d histories of %d steps' % ((1500, 60) if tier == 'thorough' else (60, 40)),
+            'bound': '%d histories of %d steps' % ((8000, 60) if tier == 'thorough' else (60, 40)),
             'evaluations': n, 'failures': [] if not f else [{'function': 'txdbus.bus', 'clause': 'delivery', 'input': inp, 'detail': f}]}
 
 
